@@ -131,6 +131,14 @@ def check(run):
         + [(o, 2) for o in range(dictionary.BASE + 0x200, len(dc_) - 1, 2) if dc_[o:o + 2] != b"\0\0" or o % 64 == 0] \
         + [(o, 4) for o in range(dictionary.BASE + 0x200, len(dc_) - 3, 4) if dc_[o:o + 4] != b"\0\0\0\0"][:60]
     bases.append(faults.base("dic:gen", "dic", dc_, dfields))
+    # layer group with two layers and instance objects (nested offset tables): every word of the file is a fault position
+    from gen import layergroup
+    lrng = random.Random(1802)
+    lgrp = layergroup.random_group(lrng)
+    while len(lgrp["layers"]) < 2 or sum(len(l["objects"]) for l in lgrp["layers"]) < 3:
+        lgrp = layergroup.random_group(lrng)
+    ll_ = layergroup.build(lgrp, lrng)
+    bases.append(faults.base("lgb:layers", "lgb", ll_, faults.words(len(ll_), len(ll_))))
     lg_ = open(REPO + "/resources/tests/empty_planlive.lgb", "rb").read()
     bases.append(faults.base("lgb:empty", "lgb", lg_, faults.words(len(lg_), 36)))
     rng = rng_run
